@@ -5,7 +5,7 @@
    and otherwise returns arrays (C15_seeded_total); in particular a node forced complementary
    to itself, or a class with no common base, is always reported (C15_failure_reason), and a
    satisfiable graph is never rejected for this reason.
-   At the level of the document (strand layout, C15_over_iff_document_unsat): over-constraint is
+   At the level of the document (both layouts, C15_over_iff_document_unsat): over-constraint is
    reported exactly when no assignment of bases to the nucleotides of the declared sequences
    respects their templates, the equal statements and the base pairs of the target structures
    (doc_sat), under the per-case booleans same_graph / spec_okb / dgraph_ok. *)
@@ -58,16 +58,16 @@ Theorem C15_success_gives_assignment : forall g m, graph_closed g = true ->
 Proof. exact templates_succeed_iff_sat. Qed.
 Print Assumptions C15_success_gives_assignment.
 
-(* document-level statement: satisfiability of the seeded graph is satisfiability of the document *)
-Theorem C15_gsat_iff_doc_sat : forall (p : pspec) (lay : layout) (g : cgraph),
-  spec_okb p = true -> dgraph_ok p lay = true -> same_graph p lay g = true -> graph_ok g = true ->
-  ((exists a, gsat g a) <-> doc_sat p).
+(* document-level statement, either layout: satisfiability of the seeded graph is satisfiability of the document *)
+Theorem C15_gsat_iff_doc_sat : forall (p : pspec) (lay : layout) (so : bool) (g : cgraph),
+  spec_okb p so = true -> dgraph_ok p lay so = true -> same_graph p lay so g = true -> graph_ok g = true ->
+  ((exists a, gsat g a) <-> doc_sat p so).
 Proof. exact gsat_iff_doc_sat. Qed.
 Print Assumptions C15_gsat_iff_doc_sat.
 
-Theorem C15_over_iff_document_unsat : forall (p : pspec) (lay : layout) (g : cgraph),
-  seed p false = OK (lay, g) -> graph_ok g = true ->
-  spec_okb p = true -> dgraph_ok p lay = true -> same_graph p lay g = true ->
-  (get_constraints p false = DOver <-> ~ doc_sat p).
+Theorem C15_over_iff_document_unsat : forall (p : pspec) (so : bool) (lay : layout) (g : cgraph),
+  seed p so = OK (lay, g) -> graph_ok g = true ->
+  spec_okb p so = true -> dgraph_ok p lay so = true -> same_graph p lay so g = true ->
+  (get_constraints p so = DOver <-> ~ doc_sat p so).
 Proof. exact over_iff_document_unsat. Qed.
 Print Assumptions C15_over_iff_document_unsat.
